@@ -232,16 +232,17 @@ Definition ext_content (t : N) (d : bytes) : option ext_item :=
     match ld16 i with None => None | Some (_, i) => ok (is_some (ld16 i)) end end end
   else Some ExtOther.                               (* TlsExtension::Unknown *)
 
-Definition GREASE_TYPE : N := 0xfafa.   (* TlsExtensionType::from(&Grease(_, _)) is the constant 0xfafa *)
+(* TlsExtensionType::from(&Grease(_, _)) is the constant 0xfafa, but the Grease variant carries the type that
+   was on the wire, and that is what tls_process.rs reads since the c04grease repair *)
 
-(* parse_tls_extensions = many0(complete(parse_tls_extension)): pairs (type as reported by
-   TlsExtensionType::from(&ext), content); stops silently at the first failing extension.
+(* parse_tls_extensions = many0(complete(parse_tls_extension)): pairs (wire type for Grease(..), otherwise the type
+   reported by TlsExtensionType::from(&ext); content); stops silently at the first failing extension.
    Every extension consumes >= 4 bytes; fuel as for hs_walk. *)
 Fixpoint parse_extensions (fuel : nat) (i : bytes) : list (N * ext_item) :=
   match fuel with O => [] | S f =>
     match u16 i with None => [] | Some (t, i1) =>
     match ld16 i1 with None => [] | Some (d, rest) =>
-      if grease_mask t then (GREASE_TYPE, ExtOther) :: parse_extensions f rest
+      if grease_mask t then (t, ExtOther) :: parse_extensions f rest
       else match ext_content t d with
            | Some it => (t, it) :: parse_extensions f rest
            | None => []
